@@ -5,6 +5,7 @@ snapshot is validated by TLC against AtomicTrace)."""
 import json
 import random
 
+from vlib import clip as vclip
 from vlib import Broken, Verdict, read_ndjson, write_ndjson, require_coverage
 
 ACTIONS = ["GenSymlink", "Deliver", "Finish", "StreamCut", "Kill"]
@@ -29,7 +30,7 @@ def normalise(o):
                          "temps": len(d["extra"]), "extra": d["extra"]}
         return base
     what = "CRASHED: " if o.get("crashed") else "HUNG: " if o.get("hung") else "HARNESS: " + str(o.get("harness_error"))
-    base["final"] = {"mode": "broken", "result": "crashed" if o.get("crashed") else "hung", "err": what + (o.get("stderr") or "")[-1200:], "d": 0, "dmin": 0,
+    base["final"] = {"mode": "broken", "result": "crashed" if o.get("crashed") else "hung", "err": what + vclip(o.get("stderr"), 1200), "d": 0, "dmin": 0,
                      "snap": [], "lnk": "other", "temps": 0, "extra": []}
     return base
 
